@@ -5,6 +5,11 @@ from .. import ev1
 from . import c03
 from ..dsl import Pred, Rule
 
+def ev1_nested(c, ca):
+    from ..ev1 import nested_of
+    return nested_of(c, ca)
+
+
 PROP = "C06"
 RULE = ("cases: predicates steps:K (K>=0), never, until_fixed_point(), state-dependent sum(last)<K, history-length "
         "dependent len(ca)<=K; including ones false at t=1; 1D (and 2D) automata, histories of 1..3 rows, all three "
@@ -133,7 +138,7 @@ def line(c):
 def run_capped(c):
     import cellpylib as cpl
     ca = ev1.make_ca(c)
-    rule = Rule(c["rule"], c.get("scale", 1), clobber=bool(c.get("clobber")), mixret=c.get("mixret") or False)
+    rule = Rule(c["rule"], c.get("scale", 1), clobber=bool(c.get("clobber")), mixret=c.get("mixret") or False, nested=ev1_nested(c, ev1.make_ca(c)))
     pred = CappedPred(c["pred"], c.get("scale", 1))
     pred.fuel = c.get("fuel", FUEL)
     try:
